@@ -92,7 +92,8 @@ def verify_first(ctx):
             ctx.check(has_fresh and has_stored, vb.key, 'fresh vs stored', 'verify does not compare the recomputed signature with the one '
                       'stored in the key', 'sign(..) vs usk.signature', g.where())
             oks = [(b, st) for b in sorted(vb.live_blocks()) for st in vb.stmts(b)
-                   if st['rv']['k'] == 'agg' and st['rv'].get('adt') == 'std::result::Result' and st['rv']['variant'] == 'Ok' and st['lhs']['l'] == 0]
+                   if st['rv']['k'] == 'agg' and st['rv'].get('adt') == 'std::result::Result' and st['rv']['variant'] == 'Ok'
+                   and not st['lhs']['p'] and (st['lhs']['l'] == 0 or lib.flows_to(vb, st['lhs']['l']))]
             for (b, st) in oks:
                 ctx.check(vb.edge_dominates(te, b), vb.key, 'Ok(()) <= signatures equal',
                           'verify can accept (line %d) without the signatures being equal (e.g. when the key carries no signature)' % st['ln'],
